@@ -512,6 +512,10 @@ class Tally(StatisticsInterface):
         if math.isnan(mean) or math.isnan(self.stdev(False)):
             return (math.nan, math.nan)
         level = 1.0 - alpha / 2.0
+        if level >= 1.0:
+            # alpha = 0: 100% confidence; the unbounded interval is clipped 
+            # to the observed range, like the intervals below
+            return (self._min, self._max)
         z = NormalDist(0.0, 1.0).inv_cdf(level)
         confidence = z * math.sqrt(self.variance(False) / self._n)
         return (max(self._min, mean - confidence),
